@@ -131,10 +131,17 @@ def run(chk):
                  # normalisation, case folding or re-encoding between rendering and comparing shows here
                  "e\u0301.txt", "\u2126hm", "\u212bng.\u212b", "\ufb01le", "I\u0307.x", "\u1e9e", "a\u0308\u0323", "\uff21.\uff54xt"]
     runs = 0
-    for t in range(n_trees):
-        spec = []
+    # deep and long: every component an ordinary name, the relative path several hundred bytes long; and names at the
+    # component limit (255 bytes)
+    long_dirs = ["/".join("level-%d-%s" % (k, "x" * 30) for k in range(depth)) for depth in (7, 8, 12)]
+    fixed_specs = [
+        [("in/" + d, "d", None) for d in long_dirs] + [("in/" + d + "/file.name.txt", "f", "c") for d in long_dirs]
+        + [("in/" + "n" * 251 + ".txt", "f", "c"), ("in/" + "é" * 127 + "x", "f", "c"), ("in/" + "d" * 255, "d", None)],
+    ]
+    for t in range(n_trees + len(fixed_specs)):
+        spec = list(fixed_specs[t - n_trees]) if t >= n_trees else []
         dirs = [""]
-        for _ in range(rng.randrange(0, 4)):
+        for _ in range(rng.randrange(0, 4) if t < n_trees else 0):
             parent = rng.choice(dirs)
             dn = rng.choice(name_pool)
             d = os.path.join(parent, dn) if parent else dn
@@ -142,7 +149,7 @@ def run(chk):
                 dirs.append(d)
                 spec.append((os.path.join("in", d), "d", None))
         used = set(dirs)
-        for _ in range(rng.randrange(1, 8)):
+        for _ in range(rng.randrange(1, 8) if t < n_trees else 0):
             parent = rng.choice(dirs)
             fn = rng.choice(name_pool)
             p = os.path.join(parent, fn) if parent else fn
